@@ -30,7 +30,7 @@ var keyFS embed.FS
 // irrelevant to the properties).
 type Key struct {
 	Name  string
-	Kind  string // p256 p384 rsa2048 ed25519
+	Kind  string // p256 p384 p224 rsa2048 ed25519 (p224: log keys only; p224-00 / p224-02 have a coordinate with a leading zero byte)
 	Priv  crypto.Signer
 	SPKI  []byte // DER SubjectPublicKeyInfo
 	SKI   []byte // SHA-1 of the public key bits (RFC 5280 method 1 over the SPKI here; any stable value works)
